@@ -181,7 +181,6 @@ void reactivate_current_locals () {
   for (i = 0; i < current_number_of_locals; i++)
     {
       locals_ptr[i]->dn.local_num = runtime_locals_ptr[i];
-      locals_ptr[i]->sem_value++;
     }
 }
 
